@@ -111,6 +111,8 @@ def child_setup(shard):
                 if k not in od or not np.array_equal(np.asarray(od[k]), data[k].values):
                     out.append(("original_dims_wrong", k))
         for k, v in data.attrs.items():
+            if k == "original_dims" and "flat" not in data.dims:
+                continue      # (an image's own stale entry is replaced by its axes: checked above)
             if k not in res.attrs or M.digest(res.attrs[k]) != M.digest(v):
                 out.append(("attrs", k))
         if res.name != data.name:
@@ -266,6 +268,13 @@ def _run_subset(case):
         flags["global_stream_reproducible@%d" % npx] = bool(np.array_equal(a, b))
     flags["pixels_none_returns_data"] = bool(make_subset_data(im) is im)
     flags["input_untouched"] = bool(digest(im) == d0 and "original_dims" not in im.attrs)
+    # an image that carries an 'original_dims' entry from an earlier life (the best-fit image of a subset fit does, and crops keep
+    # attributes): a subset of IT remembers ITS axes
+    stale = im.isel(x=slice(0, max(1, nx // 2)), y=slice(0, max(1, ny - 1)))
+    stale.attrs = dict(im.attrs, original_dims={k: im[k].values for k in im.dims})
+    sub_s = make_subset_data(stale, pixels=max(1, stale.sizes["x"] * stale.sizes["y"] // 2), seed=3)
+    od = sub_s.attrs.get("original_dims", {})
+    flags["subset_of_image_with_old_original_dims_remembers_its_own_axes"] = bool(all(k in od and np.array_equal(np.asarray(od[k]), stale[k].values) for k in stale.dims))
     # an image with several z planes (a stack of slices): a subset is drawn from ALL its pixels, and all of them can be asked for (F129)
     if not nch:
         nz = 2 + int(case["seed"][-1]) % 3
